@@ -81,16 +81,17 @@ func (sfc *StructFieldsCopy) createFieldSnippet(f *types.Var) snippet.Snippet {
 				fn := m.Type().(*types.Signature)
 
 				// FIXME better check
-				fc.HasDeepCopy = m.Name() == sfc.DeepCopyName && fn.Results().Len() == 1 && fn.Params().Len() == 0
-				fc.HasDeepCopyInto = m.Name() == sfc.DeepCopyIntoName && fn.Params().Len() == 1 && fn.Results().Len() == 0
+				if m.Name() == sfc.DeepCopyName && fn.Results().Len() == 1 && fn.Params().Len() == 0 {
+					fc.HasDeepCopy = true
 
-				if fc.HasDeepCopy {
 					if _, ok := fn.Results().At(0).Type().(*types.Pointer); !ok {
 						fc.PtrResultOrParam = false
 					}
 				}
 
-				if fc.HasDeepCopyInto {
+				if m.Name() == sfc.DeepCopyIntoName && fn.Params().Len() == 1 && fn.Results().Len() == 0 {
+					fc.HasDeepCopyInto = true
+
 					if _, ok := fn.Params().At(0).Type().(*types.Pointer); !ok {
 						fc.PtrResultOrParam = false
 					}
